@@ -66,8 +66,15 @@ def run(case):
         return {"findings": F, "info": {}}
     ev = np.asarray(b.data["explained_variance"].transpose("n", "mode").values)
     tv = np.asarray(b.data["total_variance"].values).reshape(-1)
-    C = np.asarray(b.data["components"].transpose("n", fname, "mode").values)
-    S = np.asarray(b.data["scores"].transpose("n", sname, "mode").values)
+    try:
+        # the members live in the model's own (possibly renamed) sample/feature dimensions, and the public accessors bring them back
+        C = np.asarray(b.data["components"].transpose("n", fname, "mode").values)
+        S = np.asarray(b.data["scores"].transpose("n", sname, "mode").values)
+        b.components()
+        b.scores()
+    except Exception as e:  # noqa: BLE001
+        F.append(Finding("oracle", "member_structure", cc + "|dimension-names", f"member results are not expressed in the model's dimensions ({sname!r}, {fname!r}): {type(e).__name__}: {str(e)[:140]}"))
+        return {"findings": F, "info": {}}
     D = np.asarray(model.data["input_data"].transpose(sname, fname).values)
     ns = D.shape[0]
     checks = 0
